@@ -280,6 +280,35 @@ def evm(t, env, mp, memo=None, idx=None):
         r = getattr(mp, op)(f(t[1]))
     elif op == "atan2":
         r = mp.atan2(f(t[1]), f(t[2]))
+    elif op == "pi":
+        r = mp.pi
+    elif op == "eye3":
+        r = mp.eye(3)
+    elif op == "vec":
+        r = mp.matrix([f(u) for u in t[1:]])
+    elif op == "el":
+        r = f(t[1])[int(t[2]), int(t[3])]
+    elif op == "colof":
+        r = f(t[1])[:, int(t[2])]
+    elif op == "cols":
+        cs = [f(u) for u in t[1:]]
+        r = mp.matrix(cs[0].rows, len(cs))
+        for j_, c_ in enumerate(cs):
+            r[:, j_] = c_
+    elif op == "tr":
+        r = f(t[1]).T
+    elif op == "cross":
+        a_, b_ = f(t[1]), f(t[2])
+        r = mp.matrix([a_[1] * b_[2] - a_[2] * b_[1], a_[2] * b_[0] - a_[0] * b_[2], a_[0] * b_[1] - a_[1] * b_[0]])
+    elif op == "dot":
+        a_, b_ = f(t[1]), f(t[2])
+        r = sum(a_[i_] * b_[i_] for i_ in range(a_.rows))
+    elif op == "norm":
+        a_ = f(t[1])
+        r = mp.sqrt(sum(a_[i_] ** 2 for i_ in range(a_.rows)))
+    elif op == "skew":
+        a_ = f(t[1])
+        r = mp.matrix([[0, -a_[2], a_[1]], [a_[2], 0, -a_[0]], [-a_[1], a_[0], 0]])
     elif op == "min":
         r = min(f(u) for u in t[1:])
     elif op == "max":
